@@ -1191,6 +1191,232 @@ def const_model(c):
         return -(1 << (w - 1)) if s else 0
     return None
 
+
+# ---------------------------------------------------------------- more Option / Result / bool / iterator / str models
+def m_opt_filter(e, c, a):
+    v = a[0]
+    if v.variant == 'Some' and e.branch(e.call_closure(a[1], [Ref(v.fields[0])])): return v
+    return none()
+def m_opt_or(e, c, a): return a[0] if a[0].variant == 'Some' else a[1]
+def m_opt_or_else(e, c, a): return a[0] if a[0].variant in ('Some', 'Ok') else e.call_closure(a[1], [] if a[0].variant == 'None' else [a[0].fields[0].v])
+def m_opt_and(e, c, a): return a[1] if a[0].variant == 'Some' else none()
+def m_opt_xor(e, c, a):
+    x, y = a
+    if x.variant == 'Some' and y.variant == 'None': return x
+    if x.variant == 'None' and y.variant == 'Some': return y
+    return none()
+def m_opt_zip(e, c, a):
+    x, y = a
+    if x.variant == 'Some' and y.variant == 'Some': return some(tup(x.fields[0].v, y.fields[0].v))
+    return none()
+def m_opt_is_some_and(e, c, a):
+    v = a[0]
+    if v.variant in ('Some', 'Ok'): return e.call_closure(a[1], [v.fields[0].v])
+    return False
+def m_opt_is_none_or(e, c, a):
+    v = a[0]
+    if v.variant == 'Some': return e.call_closure(a[1], [v.fields[0].v])
+    return True
+def m_opt_map_or_else(e, c, a):
+    v = a[0]
+    if v.variant in ('Some', 'Ok'): return e.call_closure(a[2], [v.fields[0].v])
+    return e.call_closure(a[1], [] if v.variant == 'None' else [v.fields[0].v])
+def m_opt_ok_or_else(e, c, a):
+    v = a[0]
+    if v.variant == 'Some': return ok(v.fields[0].v)
+    return err(e.call_closure(a[1], []))
+def m_opt_get_or_insert(e, c, a):
+    cell = a[0].cell
+    if cell.v.variant == 'None': cell.v = some(a[1])
+    return Ref(cell.v.fields[0], True)
+def m_opt_take_if(e, c, a):
+    cell = a[0].cell; v = cell.v
+    if v.variant == 'Some' and e.branch(e.call_closure(a[1], [Ref(v.fields[0], True)])):
+        cell.v = none(); return v
+    return none()
+def m_opt_inspect(e, c, a):
+    v = a[0]
+    if v.variant in ('Some', 'Ok'): e.call_closure(a[1], [Ref(v.fields[0])])
+    return v
+def m_res_and_then(e, c, a):
+    v = a[0]
+    if v.variant == 'Ok': return e.call_closure(a[1], [v.fields[0].v])
+    return v
+def m_res_unwrap_err(e, c, a):
+    v = a[0]
+    if v.variant == 'Err': return v.fields[0].v
+    raise Panic('unwrap_err on Ok')
+def m_res_err(e, c, a):
+    v = a[0]
+    return some(v.fields[0].v) if v.variant == 'Err' else none()
+def m_bool_then(e, c, a):
+    if e.branch(a[0]): return some(e.call_closure(a[1], []))
+    return none()
+def m_bool_then_some(e, c, a):
+    if e.branch(a[0]): return some(a[1])
+    return none()
+def m_iter_sum(e, c, a):
+    acc = 0
+    for x in drain_iter(e, a[0]): acc = acc + unref(x)
+    return acc
+def m_iter_min_max(want_max):
+    def f(e, c, a):
+        xs = [unref(x) for x in drain_iter(e, a[0])]
+        if not xs: return none()
+        if any(is_sym(x) for x in xs): raise Unsupported('min/max over symbolic values')
+        return some(max(xs) if want_max else min(xs))
+    f.__name__ = 'm_iter_max' if want_max else 'm_iter_min'
+    return f
+def m_iter_take_while(e, c, a):
+    out = []
+    while True:
+        okk, x = iter_next(e, a[0])
+        if not okk or not e.branch(e.call_closure(a[1], [Ref(Cell(x))])): break
+        out.append(x)
+    return Iter(out)
+def m_iter_skip_while(e, c, a):
+    xs = drain_iter(e, a[0]); i = 0
+    while i < len(xs) and e.branch(e.call_closure(a[1], [Ref(Cell(xs[i]))])): i += 1
+    return Iter(xs[i:])
+def m_iter_step_by(e, c, a): return Iter(drain_iter(e, a[0])[::a[1]])
+def m_iter_unzip(e, c, a):
+    xs = drain_iter(e, a[0])
+    return tup(VecV([Cell(x.fields[0].v) for x in xs]), VecV([Cell(x.fields[1].v) for x in xs]))
+def m_iter_partition(e, c, a):
+    yes = []; no = []
+    for x in drain_iter(e, a[0]):
+        (yes if e.branch(e.call_closure(a[1], [Ref(Cell(x))])) else no).append(x)
+    return tup(VecV([Cell(x) for x in yes]), VecV([Cell(x) for x in no]))
+def m_iter_find_map(e, c, a):
+    while True:
+        okk, x = iter_next(e, a[0])
+        if not okk: return none()
+        r = e.call_closure(a[1], [x])
+        if r.variant == 'Some': return r
+def m_iter_map_while(e, c, a):
+    out = []
+    while True:
+        okk, x = iter_next(e, a[0])
+        if not okk: break
+        r = e.call_closure(a[1], [x])
+        if r.variant == 'None': break
+        out.append(r.fields[0].v)
+    return Iter(out)
+def m_iter_inspect(e, c, a): return a[0]
+def m_iter_try_fold_like(e, c, a): raise Unsupported('try_fold')
+def m_vec_retain(e, c, a):
+    v = vec_of(a[0]); v.items[:] = [it for it in v.items if e.branch(e.call_closure(a[1], [Ref(it)]))]; return UNIT
+def m_vec_drain_all(e, c, a):
+    v = vec_of(a[0]); r = a[1] if len(a) > 1 else None
+    lo, hi = (0, len(v.items)) if r is None or type(r) is not Adt else range_bounds(e, r, len(v.items))
+    out = [x.v for x in v.items[lo:hi]]; del v.items[lo:hi]
+    return Iter(out)
+def m_vec_split_first(e, c, a):
+    v = vec_of(a[0])
+    if not v.items: return none()
+    return some(tup(Ref(v.items[0]), Ref(Cell(VecV(v.items[1:])))))
+def m_vec_split_last(e, c, a):
+    v = vec_of(a[0])
+    if not v.items: return none()
+    return some(tup(Ref(v.items[-1]), Ref(Cell(VecV(v.items[:-1])))))
+def m_vec_swap(e, c, a):
+    v = vec_of(a[0]); i, j = a[1], a[2]; v.items[i], v.items[j] = v.items[j], v.items[i]; return UNIT
+def m_vec_reverse(e, c, a): vec_of(a[0]).items.reverse(); return UNIT
+def m_vec_dedup(e, c, a):
+    v = vec_of(a[0]); out = []
+    for it in v.items:
+        if out and e.branch(struct_eq(e, out[-1].v, it.v)): continue
+        out.append(it)
+    v.items[:] = out; return UNIT
+def m_vec_starts_with(e, c, a):
+    v = vec_of(a[0]); p = vec_of(a[1])
+    if len(p.items) > len(v.items): return False
+    return zand([struct_eq(e, x.v, y.v) for x, y in zip(v.items, p.items)])
+def m_str_strip_prefix(e, c, a):
+    s = as_str(a[0]).chars; p = a[1]
+    cp = char_pat(e, p)
+    if cp is None:
+        pc = as_str(p).chars
+        if len(pc) <= len(s) and e.branch(zand([ch_eq(x, y) for x, y in zip(s, pc)])): return some(Ref(Cell(Str(s[len(pc):]))))
+        return none()
+    if s and e.branch(cp(s[0])): return some(Ref(Cell(Str(s[1:]))))
+    return none()
+def m_str_strip_suffix(e, c, a):
+    s = as_str(a[0]).chars; p = a[1]
+    cp = char_pat(e, p)
+    if cp is None:
+        pc = as_str(p).chars
+        if len(pc) <= len(s) and (not pc or e.branch(zand([ch_eq(x, y) for x, y in zip(s[len(s)-len(pc):], pc)]))): return some(Ref(Cell(Str(s[:len(s)-len(pc)]))))
+        return none()
+    if s and e.branch(cp(s[-1])): return some(Ref(Cell(Str(s[:-1]))))
+    return none()
+def m_str_split_once(e, c, a):
+    s = as_str(a[0]).chars; p = a[1]
+    cp = char_pat(e, p)
+    if cp is None:
+        pc = as_str(p).chars; n = len(pc)
+        for i in range(len(s) - n + 1):
+            if e.branch(zand([ch_eq(s[i+k], pc[k]) for k in range(n)])): return some(tup(Ref(Cell(Str(s[:i]))), Ref(Cell(Str(s[i+n:])))))
+        return none()
+    for i, ch in enumerate(s):
+        if e.branch(cp(ch)): return some(tup(Ref(Cell(Str(s[:i]))), Ref(Cell(Str(s[i+1:])))))
+    return none()
+def m_str_trim_matches(side):
+    def f(e, c, a):
+        s = list(as_str(a[0]).chars)
+        if len(a) > 1: cp = char_pat(e, a[1])
+        else: cp = lambda ch: m_is_whitespace(e, c, [ch])
+        if cp is None: raise Unsupported('trim_matches with a string pattern')
+        if side in ('both', 'start'):
+            while s and e.branch(cp(s[0])): s.pop(0)
+        if side in ('both', 'end'):
+            while s and e.branch(cp(s[-1])): s.pop()
+        return Ref(Cell(Str(s)))
+    f.__name__ = 'm_str_trim_' + side
+    return f
+def m_str_rfind(e, c, a):
+    s = as_str(a[0]).chars; cp = char_pat(e, a[1])
+    if cp is None: raise Unsupported('rfind with a string pattern')
+    for i in range(len(s) - 1, -1, -1):
+        if e.branch(cp(s[i])): return some(utf8_len(e, s[:i]))
+    return none()
+def m_str_eq_ignore_case(e, c, a):
+    x = as_str(a[0]).chars; y = as_str(a[1]).chars
+    if len(x) != len(y): return False
+    def low(ch):
+        if is_sym(ch): return z3.If(z3.And(z3.UGE(ch, 0x41), z3.ULE(ch, 0x5a)), ch + 32, ch)
+        return ch + 32 if 0x41 <= ch <= 0x5a else ch
+    return zand([low(p) == low(q) for p, q in zip(x, y)])
+def m_str_is_char_boundary(e, c, a):
+    s = as_str(a[0]).chars; b = a[1]
+    try: byte_to_char_index(e, s, b); return True
+    except Panic: return False
+def m_char_to_ascii_case(upper):
+    def f(e, c, a):
+        ch = unref(a[0])
+        if is_sym(ch):
+            return z3.If(z3.And(z3.UGE(ch, 0x61), z3.ULE(ch, 0x7a)), ch - 32, ch) if upper else z3.If(z3.And(z3.UGE(ch, 0x41), z3.ULE(ch, 0x5a)), ch + 32, ch)
+        if upper: return ch - 32 if 0x61 <= ch <= 0x7a else ch
+        return ch + 32 if 0x41 <= ch <= 0x5a else ch
+    f.__name__ = 'm_char_to_ascii_' + ('upper' if upper else 'lower')
+    return f
+def m_char_to_digit(e, c, a):
+    ch = unref(a[0]); radix = a[1]
+    if radix != 10 and radix != 16: raise Unsupported('to_digit radix')
+    if is_sym(ch):
+        if e.branch(z3.And(z3.UGE(ch, 0x30), z3.ULE(ch, 0x39))): return some(ch - 0x30)
+        if radix == 16 and e.branch(z3.And(z3.UGE(ch, 0x61), z3.ULE(ch, 0x66))): return some(ch - 0x57)
+        if radix == 16 and e.branch(z3.And(z3.UGE(ch, 0x41), z3.ULE(ch, 0x46))): return some(ch - 0x37)
+        return none()
+    if 0x30 <= ch <= 0x39: return some(ch - 0x30)
+    if radix == 16 and 0x61 <= ch <= 0x66: return some(ch - 0x57)
+    if radix == 16 and 0x41 <= ch <= 0x46: return some(ch - 0x37)
+    return none()
+def m_char_eq_ignore_ascii_case(e, c, a):
+    lo = m_char_to_ascii_case(False)
+    return lo(e, c, [a[0]]) == lo(e, c, [a[1]])
+def m_str_cmp_eq(e, c, a): return struct_eq(e, a[0], a[1])
+
 # ---------------------------------------------------------------- tables
 TRAIT_MODELS = {
     ('IntoIterator', 'into_iter'): m_into_iter,
@@ -1221,6 +1447,19 @@ TRAIT_MODELS = {
     ('Iterator', 'peekable'): m_iter_peekable,
     ('Iterator', 'by_ref'): m_iter_by_ref,
     ('Iterator', 'size_hint'): m_iter_size_hint,
+    ('Iterator', 'sum'): m_iter_sum,
+    ('Iterator', 'max'): m_iter_min_max(True),
+    ('Iterator', 'min'): m_iter_min_max(False),
+    ('Iterator', 'take_while'): m_iter_take_while,
+    ('Iterator', 'skip_while'): m_iter_skip_while,
+    ('Iterator', 'step_by'): m_iter_step_by,
+    ('Iterator', 'unzip'): m_iter_unzip,
+    ('Iterator', 'partition'): m_iter_partition,
+    ('Iterator', 'find_map'): m_iter_find_map,
+    ('Iterator', 'map_while'): m_iter_map_while,
+    ('Iterator', 'inspect'): m_iter_inspect,
+    ('Iterator', 'fuse'): m_iter_by_ref,
+    ('DoubleEndedIterator', 'next_back'): lambda e, c, a: (lambda it: some(it.seq.pop()) if type(it) is Iter and len(it.seq) > it.pos else none())(unref(a[0])),
     ('ExactSizeIterator', 'len'): m_iter_len,
     ('DoubleEndedIterator', 'rev'): m_iter_rev,
     ('FromIterator', 'from_iter'): m_from_iter,
@@ -1417,6 +1656,51 @@ MODELS = [(re.compile(p, re.S), f) for p, f in [
     (r'core::num::<impl \w+>::saturating_sub$', m_saturating_sub),
     (r'std::cmp::max::<.*>$', m_int_max),
     (r'std::cmp::min::<.*>$', m_int_min),
+    (r'(std::option::)?Option::<.*>::filter::<.*>$', m_opt_filter),
+    (r'(std::option::)?Option::<.*>::or$|(std::result::)?Result::<.*>::or::<.*>$', m_opt_or),
+    (r'(std::option::)?Option::<.*>::or_else::<.*>$|(std::result::)?Result::<.*>::or_else::<.*>$', m_opt_or_else),
+    (r'(std::option::)?Option::<.*>::and::<.*>$', m_opt_and),
+    (r'(std::option::)?Option::<.*>::xor$', m_opt_xor),
+    (r'(std::option::)?Option::<.*>::zip::<.*>$', m_opt_zip),
+    (r'(std::option::)?Option::<.*>::is_some_and::<.*>$|(std::result::)?Result::<.*>::is_ok_and::<.*>$', m_opt_is_some_and),
+    (r'(std::option::)?Option::<.*>::is_none_or::<.*>$', m_opt_is_none_or),
+    (r'(std::option::)?Option::<.*>::map_or_else::<.*>$|(std::result::)?Result::<.*>::map_or_else::<.*>$', m_opt_map_or_else),
+    (r'(std::option::)?Option::<.*>::ok_or_else::<.*>$', m_opt_ok_or_else),
+    (r'(std::option::)?Option::<.*>::get_or_insert$', m_opt_get_or_insert),
+    (r'(std::option::)?Option::<.*>::take_if::<.*>$', m_opt_take_if),
+    (r'(std::option::)?Option::<.*>::inspect::<.*>$|(std::result::)?Result::<.*>::inspect::<.*>$', m_opt_inspect),
+    (r'(std::option::)?Option::<.*>::(as_deref_mut|as_mut_slice)$', m_opt_as_mut),
+    (r'(std::result::)?Result::<.*>::and_then::<.*>$', m_res_and_then),
+    (r'(std::result::)?Result::<.*>::(unwrap_err|expect_err)$', m_res_unwrap_err),
+    (r'(std::result::)?Result::<.*>::err$', m_res_err),
+    (r'(std::result::)?Result::<.*>::(as_ref)$', lambda e, c, a: (ok if unref(a[0]).variant == 'Ok' else err)(Ref(unref(a[0]).fields[0]))),
+    (r'(core::)?bool::<impl bool>::then::<.*>$|std::primitive::bool::then::<.*>$', m_bool_then),
+    (r'(core::)?bool::<impl bool>::then_some::<.*>$', m_bool_then_some),
+    (r'Vec::<.*>::retain::<.*>$', m_vec_retain),
+    (r'Vec::<.*>::drain::<.*>$', m_vec_drain_all),
+    (r'Vec::<.*>::dedup$', m_vec_dedup),
+    (r'Vec::<.*>::swap_remove$', m_vec_remove),
+    (r'core::slice::<impl \[.*\]>::split_first$', m_vec_split_first),
+    (r'core::slice::<impl \[.*\]>::split_last$', m_vec_split_last),
+    (r'core::slice::<impl \[.*\]>::swap$', m_vec_swap),
+    (r'core::slice::<impl \[.*\]>::reverse$', m_vec_reverse),
+    (r'core::slice::<impl \[.*\]>::starts_with$', m_vec_starts_with),
+    (r'core::slice::<impl \[.*\]>::first_mut$', lambda e, c, a: some(Ref(vec_of(a[0]).items[0], True)) if vec_of(a[0]).items else none()),
+    (r'core::slice::<impl \[.*\]>::get_mut$', m_vec_get),
+    (r'(core|std)::str::<impl str>::strip_prefix::<.*>$', m_str_strip_prefix),
+    (r'(core|std)::str::<impl str>::strip_suffix::<.*>$', m_str_strip_suffix),
+    (r'(core|std)::str::<impl str>::split_once::<.*>$', m_str_split_once),
+    (r'(core|std)::str::<impl str>::trim_matches::<.*>$', m_str_trim_matches('both')),
+    (r'(core|std)::str::<impl str>::trim_start_matches::<.*>$|(core|std)::str::<impl str>::trim_start$', m_str_trim_matches('start')),
+    (r'(core|std)::str::<impl str>::trim_end_matches::<.*>$|(core|std)::str::<impl str>::trim_end$', m_str_trim_matches('end')),
+    (r'(core|std)::str::<impl str>::rfind::<.*>$', m_str_rfind),
+    (r'(core|std)::str::<impl str>::eq_ignore_ascii_case$', m_str_eq_ignore_case),
+    (r'(core|std)::str::<impl str>::is_char_boundary$', m_str_is_char_boundary),
+    (r'(core|std)::str::<impl str>::(as_str|as_ref)$', m_ident),
+    (r'char::methods::<impl char>::to_ascii_uppercase$|core::num::<impl u8>::to_ascii_uppercase$', m_char_to_ascii_case(True)),
+    (r'char::methods::<impl char>::to_ascii_lowercase$|core::num::<impl u8>::to_ascii_lowercase$', m_char_to_ascii_case(False)),
+    (r'char::methods::<impl char>::to_digit$', m_char_to_digit),
+    (r'char::methods::<impl char>::eq_ignore_ascii_case$', m_char_eq_ignore_ascii_case),
     (r'std::convert::identity::<.*>$', m_ident),
     (r'std::intrinsics::(cold_path|assume)$|std::hint::(black_box|assert_unchecked)(::<.*>)?$', m_unit),
 ]]
